@@ -109,7 +109,10 @@
 use core::cell::Cell;
 use core::ptr;
 use core::sync::atomic::Ordering::*;
+#[cfg(not(arc_swap_verif))]
 use core::sync::atomic::{AtomicPtr, AtomicUsize};
+#[cfg(arc_swap_verif)]
+use crate::verif_hooks::{AtomicPtr, AtomicUsize};
 
 use super::Debt;
 use crate::RefCnt;
@@ -330,5 +333,19 @@ impl Slots {
             // someone provided the replacement *and* paid the debt and we need just one of them).
             Err(replacement)
         }
+    }
+}
+
+#[cfg(arc_swap_verif)]
+impl Local {
+    pub(super) fn verif_generation(&self) -> &Cell<usize> {
+        &self.generation
+    }
+}
+
+#[cfg(arc_swap_verif)]
+impl Slots {
+    pub(super) fn verif_control(&self) -> usize {
+        self.control.raw_load()
     }
 }
